@@ -12,6 +12,7 @@ import (
 	"github.com/PelicanPlatform/classad/classad"
 	"github.com/bbockelm/cedar/addresses"
 	"github.com/bbockelm/cedar/client/sharedport"
+	"github.com/bbockelm/cedar/message"
 	"github.com/bbockelm/cedar/security"
 	"github.com/bbockelm/cedar/version"
 	"github.com/bbockelm/cedar/watch"
@@ -84,6 +85,10 @@ func runText(tc *textCase) (textRes, []failure) {
 		case "ccb_contact":
 			b, _, _ := addresses.SplitCCBContact(s)
 			_ = addresses.BrokerIsCCB(b)
+		case "parse_expr":
+			_ = message.VerifParseAndInsertExpression(classad.New(), s)
+		case "old_string":
+			_, _ = message.VerifDecodeOldClassAdString(s)
 		case "sp_id":
 			_ = addresses.IsValidSharedPortID(s)
 		case "version":
